@@ -168,7 +168,14 @@ func c19RenderCase(r *fw.Rand, depth, wrap, padEntry, padCallee int, sameFile bo
 			if !sameFile && (lv+1)%2 == 1 {
 				nextNs = "nb"
 			}
-			switch r.Intn(5) {
+			switch r.Intn(8) {
+			case 5:
+				// an opening tag that itself spans several lines: the command starts where its brace is
+				stmt = fmt.Sprintf("{call %s.t%d\n    data=\"all\"\n/}", nextNs, lv+1)
+			case 6:
+				stmt = fmt.Sprintf("{call %s.t%d\n  data=\"['u': 1]\"}\n  {param z: 2 /}\n{/call}", nextNs, lv+1)
+			case 7:
+				stmt = fmt.Sprintf("{call\n  name=\"%s.t%d\"\n  data=\"all\" /}", nextNs, lv+1)
 			case 0:
 				stmt = fmt.Sprintf("{call %s.t%d /}", nextNs, lv+1)
 			case 1:
